@@ -7,4 +7,5 @@ CONSTANTS
   FixD10 = FALSE
   FixD12 = TRUE
   FixD17 = TRUE
+  FixD18 = TRUE
 INVARIANT C13_EveryScheduledWatchRuns
